@@ -1,5 +1,6 @@
 SPECIFICATION Spec
 CONSTANTS
+  Bug = "none"
   N = 5
   MaxB = 6
   MaxD = 3
